@@ -70,6 +70,8 @@ Fixpoint life_bounds (k: nat) (acc: list string) (s: list tt) : res (list string
     end
   end.
 
+Fixpoint skip_default (s: list tt) : list tt :=
+  match s with TP PComma :: _ | TP PGt :: _ | [] => s | _ :: r => skip_default r end.
 Definition next_const_generic (fuel: nat) (s: list tt) : res generic :=
   match s with
   | TId name :: s1 =>
@@ -81,6 +83,8 @@ Definition next_const_generic (fuel: nat) (s: list tt) : res generic :=
                 match s4 with
                 | [] => Panic
                 | TLit (LNat n) :: s5 => Ok (GnConst name cty (Some (CValue n))) s5
+                (* any other expression (`-1`, `'x'`, `{ N + 1 }`): skipped up to the `,` or `>` that ends the parameter (repair of D27) *)
+                | TP PMinus :: _ | TLit (LStr _) :: _ | TG _ _ :: _ => Ok (GnConst name cty (Some (CNamedC unnamed))) (skip_default s4)
                 | _ => bind (expect (next_type fuel s4)) (fun d s5 => Ok (GnConst name cty (Some (CNamedC d))) s5)
                 end
             | _ => Ok (GnConst name cty None) s3
